@@ -129,3 +129,14 @@ Theorem C05_source_tests_known :
   tests_known send_input_code send_input_known = true.
 Proof. split; [exact get_timeout_tests_known | exact send_input_tests_known]. Qed.
 Print Assumptions C05_source_tests_known.
+
+(* THE TIE BY TRANSLATION for sendRPC (the polling goroutine one effect whose text is pinned): for
+   every combination of what can happen — serialisation or a write failing, version, and which of
+   the three communications ends the wait — the framed request and a return are written (a second
+   return under 1.1), a read-loop error ends the call with that error, the timer with the timeout
+   error (wrapping util.ErrTimeoutError), and otherwise the reply taken under THIS message's id is
+   recorded into the response built from the serialized request (48 runs; every test known). *)
+From Scrapli Require Import DecideLang GeneratedSkel RpcSrc.
+Theorem C05_send_rpc_is_source : rpc_table_ok = true /\ tests_known send_rpc_code send_rpc_known = true.
+Proof. exact send_rpc_is_source. Qed.
+Print Assumptions C05_send_rpc_is_source.
